@@ -17,6 +17,16 @@ CHECKS = {
         design="7/C05",
     ),
 }
+CHECKS["C01"] = dict(
+    technique="property-based testing (Hypothesis): Rosenblatt round-trip through the model's own cdf + differential against an independent reference inverse-Rosenblatt of the spec",
+    text="Generated hierarchical models (n_dim 2-4, all conditional_on structures, 7 native families + scipy subclasses as marginals, constructed dependence "
+         "shapes incl. chained), alpha in [1e-8,0.5], n_points 3-200, both IFORM and ISORM. Every contour point is mapped back through the model's own "
+         "(conditional) cdf one point at a time and must land on the beta-sphere coordinate it came from (1e-6 in u-space or representability bracket); "
+         "beta, sphere norms, 2-D equally spaced angles / n-D distinct directions, (n_points, n_dim) shape, reference inverse-Rosenblatt agreement and the "
+         "2-D marginal-quantile identity are asserted. Exploration level.",
+    note="Component cdf/icdf correctness is C05/C08's business; parameters in metocean-plausible sub-ranges; n-D up to 60 (quick) / 200 (thorough) points.",
+    design="7/C01",
+)
 NOT_YET = {}
 
 def main():
